@@ -68,6 +68,8 @@ type c15obs struct {
 	serveErr         error
 	dialAfterOK      bool
 	clientsDone      int
+	calledAt         time.Duration // virtual time at which Shutdown was called
+	blockedUntil     time.Duration // latest virtual time at which the Shutdown caller was found blocked inside the call
 	notes            []string
 	log              []string
 }
@@ -261,9 +263,11 @@ func c15body(sc c15scn) func() {
 			mcrt.Covered("shutdown-while-handler-running")
 		}
 		o.shutdownCalled = true
+		o.calledAt = mtime.Now().Sub(mcrt.Base)
 		o.ev("shutdown called")
 		err := s.ShutdownWithContext(ctx)
 		o.shutdownErr = err
+		o.blockedUntil = mcrt.BlockedUntil()
 		o.ev("shutdown returned %v", err)
 		o.runningAtReturn = o.running
 		o.serveAtReturn = o.serveReturned
@@ -347,6 +351,18 @@ func c15check(sc c15scn) func(x *mcrt.Exec) (string, string, string) {
 		}
 		if o.runningAtReturn > 0 {
 			return cls, "shutdown-returned-while-handler-running", fmt.Sprintf("Shutdown returned nil while %d handler(s) were still running", o.runningAtReturn)
+		}
+		// handlers need at most 150ms after Done() and Shutdown polls every 100ms: anything much longer means Shutdown sat
+		// out a keep-alive connection (its idle timeout) instead of closing it. A connection that has not sent a request
+		// yet is by design only closed 5s after it was accepted.
+		limit := 500 * time.Millisecond
+		if strings.Contains(sc.name, "fresh-conn") {
+			limit = 6 * time.Second
+		}
+		// (only judged on executions without deviations: a timer-first deviation taken before Shutdown has armed its ticker
+		// jumps the clock to the worker pool's 10s cleaner timer, which is scheduling slack, not waiting)
+		if w := o.blockedUntil - o.calledAt; w > limit && x.Cost == 0 {
+			return cls, "shutdown-waits-for-idle-conn", fmt.Sprintf("Shutdown was still blocked %v after it was called (handlers need <= 150ms): it waited for a keep-alive connection instead of closing it", w)
 		}
 		if o.dialAfterOK {
 			return cls, "listener-open-after-shutdown", "Dial succeeded after Shutdown returned nil"
